@@ -181,4 +181,32 @@ theorem connectStart_reconnecting_iff (st : Nat) :
     · simp [h]
     · subst h; simp
 
+/-- The reset side effect happens at most once: choosing again on the list `choosesrvconf`
+    left behind changes no counter (any list, any length) — the counters it lowered are below
+    MAX_LOSTRQS afterwards, so the realm is not reset again until a request is lost. -/
+theorem choose_side_effect_once (l : List Entry) : (choose (choose l).2).2 = (choose l).2 := by
+  by_cases h : (choose l).2 = l
+  · rw [h, h]
+  · have : (choose l).2 = clamp l := by
+      unfold choose at h ⊢
+      split at h
+      · exact absurd rfl h
+      · next acc hs =>
+        dsimp only at h ⊢
+        by_cases hc : acc.best.isSome = true ∧ acc.bestLost ≥ maxLost
+        · rw [if_pos hc]
+        · rw [if_neg hc] at h; exact absurd rfl h
+    rw [this]; exact choose_low _ (clamp_low l)
+
+/-- while no counter has reached MAX_LOSTRQS a selection has no side effect at all -/
+theorem choose_no_side_effect_below_max (l : List Entry) (hl : LowAll l) : (choose l).2 = l :=
+  choose_low l hl
+
+/-- Non-vacuity: two connected servers saturated at 16 and 20: the second is chosen and both are
+    reset to 15; the next selection leaves them there. -/
+example : choose [some (stConnected, 20), some (stConnected, 16)] =
+    (some 1, [some (stConnected, 15), some (stConnected, 15)]) := by decide
+example : (choose (choose [some (stConnected, 20), some (stConnected, 16)]).2).2 =
+    [some (stConnected, 15), some (stConnected, 15)] := by decide
+
 end Rsp.Props.C09
